@@ -24,6 +24,34 @@ ASSUMPTIONS = ["in-place forms are not called: item assignment, arguments named 
 
 # ---------------------------------------------------------------------------------------
 # object-graph walker
+class CacheView:
+    """the lazily computed values an object carries (cached properties in its __dict__): two views agree when every value present in
+    both is the same - computing a value for the first time is not a change, altering one that was already there is"""
+    def __init__(self, d):
+        self.d = d
+    def __eq__(self, other):
+        return isinstance(other, CacheView) and all(other.d[k] == v for k, v in self.d.items() if k in other.d)
+    def __ne__(self, other):
+        return not self.__eq__(other)
+    def __hash__(self):
+        return 0
+    def __repr__(self):
+        return "caches" + repr({k: v for k, v in sorted(self.d.items())})[:120]
+
+
+CHORD_FIELDS = {"element", "extension", "tonality", "octave", "score", "tags"}
+
+
+def cache_view(obj):
+    def show(v):
+        if isinstance(v, (list, tuple)):
+            return tuple(show(x) for x in v)
+        if isinstance(v, dict):
+            return tuple(sorted((str(k), show(x)) for k, x in v.items()))
+        return str(v)
+    return CacheView({k: show(v) for k, v in getattr(obj, "__dict__", {}).items() if k not in CHORD_FIELDS})
+
+
 def walk(obj, out):
     """field-level snapshot of everything reachable from obj: {id: fields}; children are referenced by id"""
     from musiclang import Note, Melody, Chord, Score, Tonality
@@ -39,7 +67,7 @@ def walk(obj, out):
     elif isinstance(obj, Chord):
         out[i] = None
         out[i] = ("chord", type(obj).__name__, obj.element, obj.extension, walk(obj.tonality, out) if obj.tonality is not None else None,
-                  obj.octave, tuple((k, walk(v, out)) for k, v in obj.score.items()), frozenset(obj.tags))
+                  obj.octave, tuple((k, walk(v, out)) for k, v in obj.score.items()), frozenset(obj.tags), cache_view(obj))
     elif isinstance(obj, Score):
         out[i] = None
         cfg = getattr(obj, "config", None)
@@ -514,6 +542,9 @@ def catalogue():
     add("chord.set_duration", ["chord"], lambda a, r: a[0].set_duration(Fr(2)))
     add("chord.augment", ["chord"], lambda a, r: a[0].augment(Fr(2)))
     add("chord.invert", ["chord"], lambda a, r: a[0].invert(r.choice([1, -1])))
+    add("chord.to_voicing", ["chord"], lambda a, r: a[0].to_voicing(nb_voices=r.choice([3, 4, 5, 6])))
+    add("chord.transpose", ["chord"], lambda a, r: a[0].transpose(r.choice([1, 2, -3])))
+    add("score.to_voicing", ["score"], lambda a, r: a[0].to_voicing(nb_voices=r.choice([4, 5])))
     add("chord.get_chord_between", ["chord"], lambda a, r: a[0].get_chord_between(*window(a[0], r)))
     add("chord.parsimonious", ["chord", "chord"], lambda a, r: a[0].get_parsimonious_voice_leading(a[1], direction=r.choice([None, "up", "down"])))
     add("chord.o_melody", ["chord"], lambda a, r: a[0].o_melody(1))
@@ -630,6 +661,12 @@ class Histories(Stream):
                          for n in sc2.chords[0].score[names[0]].notes])
         tchord = sc2.chords[0](**{names[0]: tagged, names[1]: sc2.chords[0].score[names[1]]})
         pool += [tagged, tchord, Score([tchord, sc2.chords[1]]), tagged.notes[0]]
+        # chords without parts (what the library symbols I, V['7'] % key ... are), their tone lists already computed once
+        from musiclang import Chord
+        for fig in ("", "7", "6"):
+            bare = Chord(rng.randrange(7), extension=fig, tonality=Tonality(rng.randrange(12), rng.choice(MODES), 0), octave=rng.choice([0, 1]))
+            _ = bare.extension_notes, bare.chord_notes, bare.chord_extension_pitches, bare.chord_pitches, bare.scale_pitches
+            pool.append(bare)
         return pool
 
     def impl(self, case):
